@@ -238,6 +238,16 @@ func (cw *c15World) op(client int) {
 			req.From = fam.names[0]
 		} else {
 			req.Files = map[string]string{"model.gguf": fam.digest}
+			if d("twopart", 3) == 0 {
+				// an uploaded file that holds more than one GGUF (model followed by projector):
+				// create cuts the layers out of it instead of adopting the uploaded blob
+				b := append(append([]byte(nil), fam.gguf...), fam.gguf...)
+				dg := fmt.Sprintf("sha256:%x", sha256.Sum256(b))
+				ur := cw.apiDo(ctx, "POST", "/api/blobs/"+dg, b)
+				cw.count("blob-upload", ur.code)
+				req.Files = map[string]string{"model.gguf": dg}
+				verifsim.Probe("c15_create_from_multi_gguf_file")
+			}
 		}
 		if d("sys", 2) == 0 {
 			req.System = "system " + strconv.Itoa(d("sysn", 3))
@@ -249,6 +259,9 @@ func (cw *c15World) op(client int) {
 		cw.count("create", r.code)
 		if r.code == 200 && strings.Contains(r.body.String(), `"success"`) {
 			verifsim.Probe("c15_create_ok")
+			if req.From == "" && req.Files["model.gguf"] != fam.digest {
+				verifsim.Probe("c15_create_from_multi_gguf_file_ok")
+			}
 		}
 	case k < 23: // copy
 		r := cw.apiJSON(ctx, "POST", "/api/copy", api.CopyRequest{Source: fam.names[0], Destination: fam.names[1+d("dst", len(fam.names)-1)]})
